@@ -722,8 +722,9 @@ class Parser:
             if self.accept(";"):
                 stmts.append(N("expr", e=e, semi=True, attrs=e_attrs))
             elif self.at("}"):
-                if attrs:
-                    # an attributed tail block (#[cfg(..)] { .. }) is a statement
+                if attrs and any(a.replace(" ", "").startswith("#[cfg") for a in attrs):
+                    # an attributed tail block (#[cfg(..)] { .. }) is a statement; under any other
+                    # attribute (#[allow(..)] unsafe { .. }) it is still the value of the block
                     stmts.append(N("expr", e=e, semi=False, attrs=e_attrs))
                 else:
                     tail = e
@@ -948,12 +949,16 @@ class Parser:
                     self.err("await unsupported")
                 else:
                     name = self.ident()
+                    targs = None
                     if self.at("::"):
                         self.i += 1
+                        ta = self.i
                         self.skip_generics()
+                        # the turbofish is kept as text (`parse::<u8>()` -> "<u8>") for vocabulary callables
+                        targs = "".join(x.text for x in self.toks[ta:self.i])
                     if self.at("("):
                         args = self.call_args()
-                        e = N("mcall", recv=e, name=name, args=args)
+                        e = N("mcall", recv=e, name=name, args=args, targs=targs)
                     else:
                         e = N("field", e=e, name=name)
             elif self.at("("):
@@ -1207,8 +1212,9 @@ def type_name(ty):
     return ty.form
 
 
-def find_fn(items, name, impl_of=None, trait=None):
-    """function `name`; inside `impl <impl_of>` (optionally `impl <trait> for <impl_of>`) when given"""
+def find_fn(items, name, impl_of=None, trait=None, trait_arg=None):
+    """function `name`; inside `impl <impl_of>` (optionally `impl <trait> for <impl_of>`, optionally
+    `impl <trait><trait_arg> for <impl_of>`) when given"""
     hits = []
     for it in items:
         if it.kind == "fn" and impl_of is None and it.name == name:
@@ -1217,6 +1223,10 @@ def find_fn(items, name, impl_of=None, trait=None):
             tn = type_name(it.trait) if it.trait is not None else None
             if trait is not None and tn != trait:
                 continue
+            if trait_arg is not None:
+                targs = getattr(it.trait, "args", None) or []
+                if [type_name(a) for a in targs[:1]] != [trait_arg]:
+                    continue
             if trait is None and tn is not None and trait is not False:
                 pass
             for sub in it.items:
@@ -1224,7 +1234,7 @@ def find_fn(items, name, impl_of=None, trait=None):
                     hits.append(sub)
         elif it.kind in ("mod",):
             try:
-                hits.append(find_fn(it.items, name, impl_of, trait))
+                hits.append(find_fn(it.items, name, impl_of, trait, trait_arg))
             except KeyError:
                 pass
     if len(hits) != 1:
